@@ -181,6 +181,7 @@ func verifC16FlatReach() {
 		m := batch.Rows()[0].Metric()
 		h = m.KvsHash()
 	}
-	verifObserve("flat", r.invalid, len(b), l, r.tagVals[0][0], h)
+	_ = h // (xxhash is an uninterpreted function in the engine: not comparable with the native value)
+	verifObserve("flat", r.invalid, len(b), l, r.tagVals[0][0])
 	verifAssert(l != 1, "reach")
 }
